@@ -1,4 +1,5 @@
 """QUOTA (C10) and MAXSIZE (C12) rules over the context actor."""
+import re
 from engine import rule, Inst, AnchorLost
 from ctx import match_arms, arm_of, arm_region, RXPACKET, CTXMSG, short_ty, fmt_atoms
 from cond import Cond, dominating_edges, field_pred
@@ -6,6 +7,7 @@ from effects import CONNECTION, SESSION
 from mir import Body, callee_name, place_fields
 from pathutil import traced_paths, exit_kind, is_err_block
 from r_ack import FORBIDDEN_CALL_PARTS, _decision_atoms
+from spec import variant_specs, variants_reaching
 
 
 def type_guards(ctx, body):
@@ -139,6 +141,26 @@ def quota_writers(ctx):
                                 "remote_receive_maximum derives from %s" % fmt_atoms(at, ("field",)), "ConnackRx.receive_maximum"))
     if not found:
         raise AnchorLost("write to Connection.remote_receive_maximum in handle_connack")
+    # ... and is nothing but that value: no other field (a value remembered from CONNECT), no constant, no min / max
+    # takes part, and nobody else writes it
+    hc_family = set(hc.fn.get("inlined") or [])
+    for _, ub in ctx.client_units():
+        if ub.path in hc_family or ub.path.replace("::{closure#0}", "") in hc_family:
+            continue            # a helper of handle_connack (`quota.reset(max)`): looked at in place there
+        ub2 = hc if ub.path.endswith("::handle_connack") else ub
+        for i in sorted(ub2.reach):
+            for st in ub2.blocks[i]["stmts"]:
+                if st["k"] == "assign" and place_fields(st["lhs"]) and place_fields(st["lhs"])[-1] == (CONNECTION, "remote_receive_maximum"):
+                    at = ub2.rv_atoms(st["rv"])
+                    in_hc = ub2.path.endswith("::handle_connack") or any(p_.endswith("::handle_connack") for p_ in (ub2.fn.get("inlined") or []) if ub2.blocks[i].get("src", {}).get("fn", "").endswith("::handle_connack"))
+                    other_f = sorted({"%s.%s" % (a[1].split("::")[-1], a[2]) for a in at if a[0] == "field" and not str(a[1]).startswith("std::") and not (a[2] == "receive_maximum" and a[1].endswith("ConnackRx"))})
+                    consts = sorted({str(a[-1]) for a in at if a[0] in ("const", "uneval")})
+                    mixing = sorted({a[1].split("::")[-1] for a in at if a[0] == "call" and re.search(r"::(min|max|clamp|saturating_\w+|wrapping_\w+|checked_\w+)$", a[1])})
+                    ok = in_hc and not other_f and not consts and not mixing
+                    out.append(Inst("QUOTA-WRITERS", "M-only-from-connack:%s" % (ub2.path.split("::")[-1] if not ub2.path.endswith("}") else ub2.path.split("::")[-2]), ok, "%s:%d" % (ub2.fn["file"], st["line"]),
+                                    "remote_receive_maximum written in %s from %s%s%s" % (ub2.path.split("::")[-1] if not ub2.path.endswith("}") else ub2.path.split("::")[-2], fmt_atoms(at, ("field",)),
+                                                                                   "; constants %s" % consts if consts else "", "; combined with %s" % mixing if mixing else ""),
+                                    "R is the Receive Maximum of the CONNACK and nothing else (the value sent in CONNECT limits the other direction)"))
     return out
 
 
@@ -281,7 +303,7 @@ def quota_inc(ctx):
         arm = arm_of(hp, arms, otherwise, bb)
         if arm == "otherwise":
             # the `other` arm: which variants can reach here is decided by further tests
-            arm = _refine_other(hp, bb, other_vs)
+            arm = _refine_other(hp, bb, other_vs, ctx)
         for arm1 in str(arm).split("|"):      # a body shared by `A | B` patterns belongs to both arms
             inc_arms.setdefault(arm1, []).append((bb, st))
         g = _inc_guard(hp, bb)
@@ -317,7 +339,8 @@ def quota_inc(ctx):
             if a == "Pubrec":
                 # must be under reason >= 0x80
                 for bb, st in inc_arms[a]:
-                    ok, fact = _under_thresh(ctx, hp, bb)
+                    with variant_specs(ctx, hp, RXPACKET, sw)["Pubrec"].pinned():
+                        ok, fact = _under_thresh(ctx, hp, bb)
                     out.append(Inst("QUOTA-INC", "arm=Pubrec:only-on-failure", ok, "%s:%d" % (hp.fn["file"], st["line"]), fact,
                                     "PUBREC frees the slot only when its reason is >= 0x80"))
             else:
@@ -333,8 +356,20 @@ def quota_inc(ctx):
     return out
 
 
-def _refine_other(hp, bb, other_vs):
+def _refine_other(hp, bb, other_vs, ctx=None):
     """Inside the catch-all arm: look for a dominating discriminant test on an RxPacket value."""
+    r = _refine_other1(hp, bb, other_vs)
+    if r == "otherwise" and ctx is not None:
+        # ... or the arm consults a table (`AckEffects::of(&packet)`, a second match on the same packet) and tests the
+        # flags of the answer: the kinds of packet for which the block can run at all
+        sw = match_arms(hp, RXPACKET)[0]
+        vs = [v for v in variants_reaching(ctx, hp, RXPACKET, sw, bb) if v in other_vs]
+        if vs and set(vs) != set(other_vs):
+            return "|".join(vs)
+    return r
+
+
+def _refine_other1(hp, bb, other_vs):
     for (d, s_) in dominating_edges(hp, bb):
         si = hp.switch_info(d)
         if si and si["kind"] == "discr" and si.get("adt") == RXPACKET:
@@ -369,16 +404,27 @@ def _under_thresh(ctx, body, bb):
 @rule("MAXSIZE-PRED", floor=3)
 def maxsize_pred(ctx):
     """M1: validate_packet_size accepts iff the maximum is absent or len <= max."""
-    b = ctx.body(r"client::context::Context::<[^>]*>::validate_packet_size$")
+    b = ctx.flat(ctx.body(r"client::context::Context::<[^>]*>::validate_packet_size$"))
     out = []
     n = 0
     rows = set()
     # the limit is read from Connection.remote_max_packet_size inside the function, or handed in as an Option parameter
     # that every caller fills from that field
     limit_params = set()
+    limit_enums = {}
+    for ety, ea in ctx.facts.adts.items():
+        if ety.startswith("client::") and ea["kind"] == "enum" and len(ea["variants"]) == 2 and sorted(len(v["fields"]) for v in ea["variants"]) == [0, 1] \
+                and [f["ty"] for v in ea["variants"] for f in v["fields"]][0] in ("u32", "usize", "core::properties::MaximumPacketSize"):
+            limit_enums[ety] = [vi for vi, v in enumerate(ea["variants"]) if not v["fields"]][0]
     for k in range(1, b.fn["arg_count"] + 1):
         ty = b.locals[k]["ty"]
-        if "Option<" in ty and ("u32" in ty or "MaximumPacketSize" in ty):
+        ety = re.sub(r"^&('\w+ )?(mut )?", "", ty).strip()
+        ea = ctx.facts.adts.get(ety)
+        if ea is not None and ea["kind"] == "enum" and len(ea["variants"]) == 2 and sorted(len(v["fields"]) for v in ea["variants"]) == [0, 1] \
+                and [f["ty"] for v in ea["variants"] for f in v["fields"]][0] in ("u32", "usize", "core::properties::MaximumPacketSize"):
+            # the limit as an enum of its own (`enum PacketSizeLimit { Unlimited, AtMost(u32) }`): Option under another name
+            limit_enums[ety] = [vi for vi, v in enumerate(ea["variants"]) if not v["fields"]][0]
+        if ("Option<" in ty and ("u32" in ty or "MaximumPacketSize" in ty)) or ety in limit_enums:
             callers_ok = []
             for _, ub in ctx.client_units():
                 for i, t in ub.calls(r"Context::validate_packet_size$"):
@@ -390,6 +436,8 @@ def maxsize_pred(ctx):
         return any(x[0] == "field" and x[2] == "remote_max_packet_size" for x in at) or any(x[0] == "param" and x[1] in limit_params for x in at)
     slice_params = {k for k in range(1, b.fn["arg_count"] + 1) if b.locals[k]["ty"].replace(" ", "") in ("&[u8]", "&'a[u8]") or b.locals[k]["ty"].endswith("[u8]")}
     for path in b.paths(0):
+        if not b.feasible(path):
+            continue
         n += 1
         res = None
         for bb in path:
@@ -402,10 +450,11 @@ def maxsize_pred(ctx):
             c = Cond(b, a)
             truth = c.holds_on(s_)
             if truth is None:
-                if c.kind == "discr" and c.si.get("adt") == "std::option::Option" and is_max(b.atoms(c.si["place"])):
+                if c.kind == "discr" and (c.si.get("adt") == "std::option::Option" or c.si.get("adt") in limit_enums) and is_max(b.atoms(c.si["place"])):
                     vals = b.edge_value(a, s_)
                     listed = [v for v, _ in c.si["targets"]]
-                    absent = (0 in vals) or ("otherwise" in vals and 0 not in listed)
+                    none_ = 0 if c.si.get("adt") == "std::option::Option" else limit_enums[c.si["adt"]]
+                    absent = (none_ in vals) or ("otherwise" in vals and none_ not in listed)
                 continue
             if c.kind == "call" and c.callee == "is_none" and is_max(b.atoms(c.args[0])):
                 absent = truth ^ c.neg
@@ -532,4 +581,22 @@ def maxsize_source(ctx):
                     ok = body.path.endswith("::handle_connack") and any(a[0] == "field" and a[2] == "maximum_packet_size" and a[1].endswith("ConnackRx") for a in at)
                     out.append(Inst("MAXSIZE-SOURCE", "writer:%s" % body.path.split("::")[-1], ok, "%s:%d" % (body.fn["file"], st["line"]),
                                     "written in %s from %s" % (body.path, fmt_atoms(at, ("field",))), "handle_connack, from ConnackRx.maximum_packet_size"))
+                    # nothing but that value: a constant standing in for "no limit announced" is a limit the server never set
+                    fb = ctx.flat(body)
+                    pure = True
+                    why = []
+                    for i2 in sorted(fb.reach):
+                        for st2 in fb.blocks[i2]["stmts"]:
+                            if st2["k"] == "assign" and place_fields(st2["lhs"]) and place_fields(st2["lhs"])[-1] == (CONNECTION, "remote_max_packet_size"):
+                                at2 = fb.rv_atoms(st2["rv"])
+                                cs = sorted({str(a[-1]) for a in at2 if a[0] in ("const", "uneval")})
+                                of = sorted({"%s.%s" % (a[1].split("::")[-1], a[2]) for a in at2 if a[0] == "field" and not str(a[1]).startswith("std::") and not (a[2] == "maximum_packet_size" and a[1].endswith("ConnackRx"))})
+                                lit_none = st2["rv"]["k"] == "agg" and st2["rv"].get("variant") == "None"
+                                if (cs or of) and not lit_none:
+                                    pure = False
+                                    why += cs + of
+                    if not any(o_.key.endswith("source-pure") for o_ in out):
+                        out.append(Inst("MAXSIZE-SOURCE", "source-pure", pure, "%s:%d" % (body.fn["file"], st["line"]),
+                                        "the stored limit is %s" % ("the announced value or none" if pure else "mixed with %s" % sorted(set(why))),
+                                        "M is the Maximum Packet Size of the CONNACK; absent means no limit"))
     return out
